@@ -27,7 +27,12 @@ func TestVerifReplayC13(t *testing.T) {
 	num := func(k string) float64 { f, _ := sc.Inputs[k].(float64); return f }
 	withTimeout, nv := sc.Args[0] == 1, int(sc.Args[1])
 	allow, _ := sc.Inputs["allow_failure"].(bool)
-	order := []string{"b0"}
+	withCond := len(sc.Args) > 2 && sc.Args[2] == 1
+	order := []string{}
+	if withCond {
+		order = append(order, "cond")
+	}
+	order = append(order, "b0")
 	vars := nv
 	if vars == 0 {
 		vars = 1
@@ -82,6 +87,9 @@ func TestVerifReplayC13(t *testing.T) {
 			return fmt.Sprintf("n=$(wc -l < %s); echo %s >> %s; . %s/call.$((n))", trace, tag, trace, dir)
 		}
 		def := &taskDefinition{Name: "tk", Command: []string{cmd("c0"), cmd("c1")}, Before: []string{cmd("b0")}, After: []string{cmd("a0")}, AllowFailure: allow}
+		if withCond {
+			def.Condition = cmd("cond")
+		}
 		if withTimeout {
 			d := 400 * time.Millisecond
 			def.Timeout = &d
@@ -104,6 +112,10 @@ func TestVerifReplayC13(t *testing.T) {
 		for k, tag := range order {
 			exp = append(exp, tag)
 			failed := p.overrun[k] || p.fail[k]
+			if tag == "cond" && failed {
+				mustFail = p.overrun[k]
+				break
+			}
 			if failed && tag != "a0" && (tag == "b0" || p.overrun[k] || !allow) {
 				mustFail = true
 				break
